@@ -263,6 +263,24 @@ func runTranslate(c *vk.Ctx) {
 					report := func(class string, i int, via string, first int, r res) {
 						reportf(class, i, via, first, "want %#x (or an error only if the owning segment is not unique), got %v", las[i], r)
 					}
+					// (c0) an object first asked about an address just outside its mapping (the limit itself,
+					// one below the start) answers every address inside exactly as a fresh object does
+					for _, out := range []uint64{m.Limit, m.Start - 1} {
+						o0, ok0 := open(true, m)
+						r0 := objAddr(o0, ok0, out)
+						c.Eval()
+						for _, j := range followers {
+							fo, fok := open(true, m)
+							want := objAddr(fo, fok, las[j]+bias)
+							got := objAddr(o0, ok0, las[j]+bias)
+							c.Eval()
+							if got != want {
+								reportf("sequence/answer-changed-by-earlier-address-outside-the-mapping", j, "binutils openELF+ObjAddr after ObjAddr of an address outside the mapping", -1,
+									"first asked about %#x (outside [%#x,%#x), answer %v); then %#x: fresh object says %v, this object %v", out, m.Start, m.Limit, r0, las[j]+bias, want, got)
+							}
+						}
+						c.Count("sequence/outside-first", 1)
+					}
 					for i, la := range las {
 						addr, kind := la+bias, kinds[i]
 						// (a) elfexec directly
